@@ -9,6 +9,7 @@ package h8admit
 import (
 	"fmt"
 	"math/rand/v2"
+	"sort"
 	"strconv"
 	"strings"
 	"time"
@@ -17,6 +18,7 @@ import (
 	"github.com/ozontech/file.d/metric"
 	"github.com/ozontech/file.d/pipeline"
 	"github.com/ozontech/file.d/pipeline/antispam"
+	"github.com/ozontech/file.d/pipeline/doif"
 	"github.com/ozontech/file.d/zz_verifharness/core"
 	"github.com/ozontech/file.d/zz_verifharness/h1pipe"
 	"github.com/prometheus/client_golang/prometheus"
@@ -411,6 +413,9 @@ type ACfg struct {
 	Rounds    int          `json:"rounds"`  // maintenance rounds driven by the harness
 	RoundGap  time.Duration `json:"round_gap"`
 	SilenceCheck bool      `json:"silence_check"`
+	RuleThreshold int      `json:"rule_threshold,omitempty"` // >0: an antispam rule with its own threshold for the sources listed in RuledSources
+	RuledSources []int     `json:"ruled_sources,omitempty"`
+	NameException bool     `json:"name_exception,omitempty"` // a check_source_name exception is listed in front of the content exception
 }
 
 func (c *ACfg) SimCfg() *simrt.Config { return &c.Sim }
@@ -432,6 +437,17 @@ func (h *HA) Gen(rng *rand.Rand, tier, prop string) core.Cfg {
 	c.SilenceCheck = core.Chance(rng, 0.5)
 	nf := core.Between(rng, 1, 3)
 	nsrc := core.Between(rng, 1, 3)
+	if c.Exception {
+		c.NameException = core.Chance(rng, 0.5)
+	} else if c.Threshold > 1 && core.Chance(rng, 0.4) {
+		// rules replace the exceptions; a rule's threshold is lower than the global one
+		c.RuleThreshold = core.Between(rng, 1, c.Threshold-1)
+		for sidx := 1; sidx <= nsrc; sidx++ {
+			if core.Chance(rng, 0.6) {
+				c.RuledSources = append(c.RuledSources, sidx)
+			}
+		}
+	}
 	for f := 0; f < nf; f++ {
 		var ops []AOp
 		n := core.Between(rng, 1, 40)
@@ -487,16 +503,40 @@ func (h *HA) Run(cc core.Cfg, sim *simrt.Sim) *core.Outcome {
 		var exc antispam.Exceptions
 		if cfg.Exception {
 			exc = antispam.Exceptions{{RuleSet: matchrule.RuleSet{Name: "vip", Cond: matchrule.CondAnd, Rules: []matchrule.Rule{{Values: []string{"EXEMPT"}, Mode: matchrule.ModeContains}}}}}
+			if cfg.NameException {
+				// matches no source of this run; it only has to be looked at first
+				exc = append(antispam.Exceptions{{RuleSet: matchrule.RuleSet{Name: "byname", Cond: matchrule.CondAnd, Rules: []matchrule.Rule{{Values: []string{"trusted-"}, Mode: matchrule.ModePrefix}}}, CheckSourceName: true}}, exc...)
+			}
 			exc.Prepare()
 		}
-		a := antispam.NewAntispammer(&antispam.Options{MaintenanceInterval: time.Hour, Threshold: cfg.Threshold, UnbanIterations: cfg.Unban, Exceptions: exc,
+		var rules antispam.Rules
+		ruled := map[int]bool{}
+		if cfg.RuleThreshold > 0 {
+			chk, err := doif.NewFromMap(map[string]any{"op": "contains", "field": "event", "values": []any{"RULED"}})
+			if err != nil {
+				panic(err)
+			}
+			rules = antispam.Rules{{Name: "r1", Threshold: cfg.RuleThreshold, DoIfChecker: chk}}
+			for _, sidx := range cfg.RuledSources {
+				ruled[sidx] = true
+			}
+		}
+		thresholdOf := func(src int) int {
+			if ruled[src] {
+				return cfg.RuleThreshold
+			}
+			return cfg.Threshold
+		}
+		a := antispam.NewAntispammer(&antispam.Options{MaintenanceInterval: time.Hour, Threshold: cfg.Threshold, UnbanIterations: cfg.Unban, Exceptions: exc, Rules: rules,
 			Logger: h1pipe.QuietLogger(), MetricsController: metric.NewCtl(fmt.Sprintf("h8a_%d", seq), prometheus.NewRegistry(), 0, 0)})
 		// per source: events since the start of the previous maintenance round, ban state as observed
+		type call struct{ start, ret int }
 		type srcState struct {
-			sinceStart [2]int // [previous round, current round] calls STARTED
+			calls      []*call // every IsSpam call of the source: step it began, step it returned (0 = still running)
 			banned     bool
 			everBanned bool
 		}
+		var roundStart []int // step at which each maintenance round began
 		st := map[int]*srcState{}
 		get := func(s int) *srcState {
 			if st[s] == nil {
@@ -522,8 +562,14 @@ func (h *HA) Run(cc core.Cfg, sim *simrt.Sim) *core.Outcome {
 					if op.Exempt {
 						ev = []byte(`{"m":"EXEMPT"}`)
 					}
-					s.sinceStart[1]++
+					if ruled[op.Source] {
+						ev = []byte(`{"m":"x","tag":"RULED"}`)
+					}
+					thr := thresholdOf(op.Source)
+					cl := &call{start: simrt.Steps()}
+					s.calls = append(s.calls, cl)
 					spam := a.IsSpam(strconv.Itoa(op.Source), "src"+strconv.Itoa(op.Source), op.New, ev, time.Time{}, nil)
+					cl.ret = simrt.Steps()
 					if !spam {
 						// an exempt record is accepted during a ban too and a new-source flag
 						// resets the counter: only an ordinary accepted record shows the ban is over
@@ -535,19 +581,30 @@ func (h *HA) Run(cc core.Cfg, sim *simrt.Sim) *core.Outcome {
 					switch {
 					case cfg.Threshold < 0:
 						o.Violate("C20", "spam-with-antispam-disabled", "IsSpam returned true although the threshold is %d", cfg.Threshold)
-					case op.Exempt:
+					case op.Exempt && cfg.Exception:
 						o.Violate("C20", "spam-despite-exception", "IsSpam returned true for an event matching an exception")
 					case op.New && cfg.Threshold > 0:
 						o.Violate("C20", "spam-for-new-source", "IsSpam returned true for a new source")
-					case !s.banned && cfg.Threshold > 0:
+					case !s.banned && thr > 0:
 						// transition into the ban: at least `threshold` events since the start of the previous round
-						n := s.sinceStart[0] + s.sinceStart[1]
-						if n < cfg.Threshold {
+						// records that arrived since the start of the previous round, counting a call that was
+						// still in progress at that moment (its increment may land later)
+						from := 0
+						if len(roundStart) >= 2 {
+							from = roundStart[len(roundStart)-2]
+						}
+						n := 0
+						for _, c := range s.calls {
+							if c.ret == 0 || c.ret >= from {
+								n++
+							}
+						}
+						if n < thr {
 							sig := "banned-below-threshold"
 							if s.everBanned {
 								sig += "/re-ban-after-unban-with-residual-counter"
 							}
-							o.Violate("C20", sig, "source %d banned after only %d events since the start of the previous maintenance round, threshold %d", op.Source, n, cfg.Threshold)
+							o.Violate("C20", sig, "source %d banned after only %d events since the start of the previous maintenance round, threshold %d", op.Source, n, thr)
 						}
 						bans++
 					}
@@ -558,10 +615,7 @@ func (h *HA) Run(cc core.Cfg, sim *simrt.Sim) *core.Outcome {
 		}
 		for r := 0; r < cfg.Rounds; r++ {
 			simrt.Sleep(cfg.RoundGap)
-			for _, s := range st {
-				s.sinceStart[0] = s.sinceStart[1]
-				s.sinceStart[1] = 0
-			}
+			roundStart = append(roundStart, simrt.Steps())
 			a.Maintenance()
 		}
 		wg.Wait()
@@ -570,8 +624,17 @@ func (h *HA) Run(cc core.Cfg, sim *simrt.Sim) *core.Outcome {
 			for r := 0; r < cfg.Unban+1; r++ {
 				a.Maintenance()
 			}
+			var srcs []int
 			for src := range st {
-				if a.IsSpam(strconv.Itoa(src), "src"+strconv.Itoa(src), false, []byte(`{"m":"x"}`), time.Time{}, nil) && cfg.Threshold > 1 {
+				srcs = append(srcs, src)
+			}
+			sort.Ints(srcs) // harness code is not rewritten: map order must not decide the order of simulated operations
+			for _, src := range srcs {
+				probe := []byte(`{"m":"x"}`)
+				if ruled[src] {
+					probe = []byte(`{"m":"x","tag":"RULED"}`)
+				}
+				if a.IsSpam(strconv.Itoa(src), "src"+strconv.Itoa(src), false, probe, time.Time{}, nil) && thresholdOf(src) > 1 {
 					o.Violate("C20", "still-banned-after-silence", "source %d is still banned after %d silent maintenance rounds (unban iterations %d)", src, cfg.Unban+1, cfg.Unban)
 				}
 			}
